@@ -3,6 +3,8 @@
 // Contracts for package websocket, read by /verif/govc (comment-only; compiled by nobody).
 package websocket
 
+//@ uses mempool.unborn
+
 //@ func validCloseCode
 //@   props C13
 //@   safety index slice nil div assert panic
@@ -43,4 +45,79 @@ package websocket
 //@   ensures ctl64: old(c.bytesCached != nil && len(*c.bytesCached) >= 10 && plen7(c.bytesCached) == 127 && isCtl(opc(c.bytesCached)) && len64(c.bytesCached) > 125) ==> result6 != nil  // prop C13 C15
 //@   ensures lim7: old(limit(c) > 0 && c.bytesCached != nil && len(*c.bytesCached) >= 2 && plen7(c.bytesCached) < 126 && mlen(c) + plen7(c.bytesCached) > limit(c)) ==> result6 == ErrMessageTooLarge  // prop C15
 //@   ensures lim16: old(limit(c) > 0 && c.bytesCached != nil && len(*c.bytesCached) >= 4 && plen7(c.bytesCached) == 126 && mlen(c) + len16(c.bytesCached) > limit(c)) ==> result6 == ErrMessageTooLarge  // prop C15
+//@   ensures valid: result3 && result6 == nil ==> 0 <= result1 && result1 <= 15 && !(result1 > 2 && result1 < 8) && (result4 || result1 <= 2) && !(old(c.expectingFragments) && (result1 == 1 || result1 == 2)) && (result5 ==> old(c.enableCompression))  // prop C13
+//@   ensures okbody: result3 ==> old(c.bytesCached) != nil && result0 >= 2 && result0 <= old(len(*c.bytesCached)) && 0 <= len(result2) && len(result2) + 2 <= result0 && (len(result2) > 0 ==> base(result2) == old(base(*c.bytesCached)))   // prop C12
+//@   ensures fields: result3 ==> result1 == old(opc(c.bytesCached)) && result4 == (old((*c.bytesCached)[0]) >= 128)   // prop C12 C13
+//@   ensures limok: result3 && result6 == nil && limit(c) > 0 ==> old(mlen(c)) + len(result2) <= limit(c)   // prop C15
+//@   ensures ctlok: result3 && result6 == nil && isCtl(result1) ==> len(result2) <= 125        // prop C13 C15
+//@   ensures nofree: forall q int :: liveP[q] == old(liveP[q])
 //@   assigns elems(*c.bytesCached), allocates
+
+// ---- the connection monitor. The parser state (cache, message under assembly, fragmentation state) is written only
+// by the single reader that calls Parse, and by CloseAndClean under the mutex together with closed = true; the
+// reader's knowledge of it between its critical sections is kept in thread-local ghosts tied to the monitor.
+//@ ghost local Conn.gRCache : Int
+//@ ghost local Conn.gRMsg : Int
+//@ ghost local Conn.gRType : Int
+//@ ghost local Conn.gRExp : Bool
+//@ ghost local Conn.gRComp : Bool
+//@ protected Conn by mux: closed, closeErr, bytesCached, message, msgType, expectingFragments, compress
+//@ monghost unlock { self.gRCache = self.bytesCached; self.gRMsg = self.message; self.gRType = self.msgType; self.gRExp = self.expectingFragments; self.gRComp = self.compress }
+//@ moninv reader: !self.closed ==> self.bytesCached == self.gRCache && self.message == self.gRMsg && self.msgType == self.gRType && self.expectingFragments == self.gRExp && self.compress == self.gRComp
+//@ moninv own: !self.closed ==> WsOwn(self)                                                   // prop C11
+//@ pred WsOwn(c *Conn) := (c.bytesCached != nil ==> liveP[c.bytesCached]) && (c.message != nil ==> liveP[c.message] && c.message != c.bytesCached)
+//@ pred WsWired(c *Conn) := c.commonFields != nil && c.Engine != nil && c.Engine.BodyAllocator != nil
+
+//@ func (*Conn).readAll
+//@   props C15 C11
+//@   safety index slice nil div assert panic make
+//@   requires WsWired(c) && r != nil && size >= 0
+//@   ensures limit: c.commonFields.MessageLengthLimit > 0 && result0 != nil ==> len(*result0) <= c.commonFields.MessageLengthLimit   // prop C15
+//@   ensures own: result0 != nil ==> liveP[result0] && fresh(result0)                          // prop C11
+//@   ensures toolarge: result0 == nil ==> result1 != nil                                       // prop C15
+//@   ensures others: forall q int :: q <= old(top) ==> liveP[q] == old(liveP[q])               // prop C11
+//@   assigns liveP, allocates
+//@   loop 1
+//@     invariant forall q int :: q <= old(top) ==> box(q, "[]byte") == old(box(q, "[]byte"))
+//@     invariant forall b int :: b <= old(top) ==> bytes_row(b) == old(bytes_row(b))
+//@     invariant pbuf != nil && liveP[pbuf] && fresh(pbuf) && len(*pbuf) <= cap(*pbuf) && WsWired(c)
+//@     invariant c.commonFields.MessageLengthLimit > 0 ==> len(*pbuf) <= c.commonFields.MessageLengthLimit
+//@     invariant forall q int :: q <= old(top) ==> liveP[q] == old(liveP[q])
+
+// ---- one frame: the critical section inside Parse's loop
+//@ ghost local Conn.gExp0 : Bool
+//@ ghost local Conn.gType0 : Int
+//@ ghost local Conn.gMsg0 : Int
+//@ ghost local Conn.gClosed0 : Bool
+//@ pred isData(op int) := op == 0 || op == 1 || op == 2
+//@ func (*Conn).Parse$3
+//@   props C13 C12 C15 C11
+//@   safety index slice nil div assert panic make lock lockset
+//@   requires c != nil && WsWired(c) && !holds(c.mux) && allocator == c.Engine.BodyAllocator
+//@   requires frame == nil && message == nil && protocolMessage == nil && !isProtocolMessage && err == nil
+//@   requires limit(c) > 0 && c.gRMsg != 0 ==> len(box(c.gRMsg, "[]byte")) <= limit(c)
+//@   ensures unlocked: !holds(c.mux)                                                                          // prop C14
+//@   ensures opc: ok && err == nil ==> isData(opcode) || isCtl(opcode)                                         // prop C13
+//@   ensures frag: ok && err == nil && isData(opcode) && !c.gClosed0 ==> c.expectingFragments == !fin           // prop C13
+//@   ensures ctl: ok && err == nil && isCtl(opcode) && !c.gClosed0 ==> c.expectingFragments == c.gExp0 && c.msgType == c.gType0 && c.message == c.gMsg0   // prop C13 C12
+//@   ensures deliver: err == nil && message != nil ==> ok && fin && isData(opcode)                              // prop C12 C13
+//@   ensures ctlmsg: isProtocolMessage ==> ok && isCtl(opcode)                                                  // prop C13
+//@   ensures own: err == nil ==> (message != nil ==> liveP[message]) && (frame != nil ==> liveP[frame]) && (protocolMessage != nil ==> liveP[protocolMessage])   // prop C11
+//@   ensures size: err == nil && message != nil && limit(c) > 0 ==> len(*message) <= limit(c)                  // prop C15
+//@   ensures keepsize: err == nil && limit(c) > 0 && c.message != nil && !c.gClosed0 ==> len(*c.message) <= limit(c)   // prop C15
+//@   ensures ctlsize: err == nil && protocolMessage != nil ==> len(*protocolMessage) <= 125                    // prop C13 C15
+//@   assigns everything
+//@   at lock#1 ghost { c.gExp0 = c.expectingFragments; c.gType0 = c.msgType; c.gMsg0 = c.message; c.gClosed0 = c.closed }
+//@ func (*Conn).Parse$2
+//@   inline
+
+//@ func decompressReader
+//@   trusted
+//@   note compress/flate is outside every contract
+//@   ensures result != nil
+//@   assigns allocates
+//@ fieldfunc nbhttp/websocket.commonFields.WebsocketDecompressor
+//@   params c r
+//@   note user-supplied decompressor
+//@   ensures result != nil
+//@   assigns allocates
